@@ -44,6 +44,12 @@ pub enum Route {
     Special(usize),
     /// built from another key, then re-keyed in place with `clone_from`
     CloneFrom,
+    /// target put into the state an inherent constructor leaves (another key, or no key at all), then
+    /// re-keyed in place with `clone_from` from a KeyInit-built instance
+    CloneFromOnto(usize),
+    /// target built by KeyInit from another key, then re-keyed with `clone_from` from a source that an
+    /// inherent constructor built
+    CloneFromSpecialSrc(usize),
 }
 
 impl Route {
@@ -58,14 +64,36 @@ impl Route {
             Route::ConvSource => "source_of_from_ref",
             Route::Special(i) => special_ctors()[*i].1,
             Route::CloneFrom => "clone_from",
+            Route::CloneFromOnto(i) => leak(format!("clone_from_onto:{}", special_ctors()[*i].1)),
+            Route::CloneFromSpecialSrc(i) => leak(format!("clone_from_source:{}", special_ctors()[*i].1)),
         }
     }
-    pub fn parse(s: &str) -> Option<Route> {
+    /// `ty`: the type the route applies to (inherent constructor labels repeat across types)
+    pub fn parse(s: &str, ty: &str) -> Option<Route> {
+        let special = |label: &str| special_ctors().iter().position(|c| c.1 == label && c.0 == ty);
+        if let Some(l) = s.strip_prefix("clone_from_onto:") {
+            return special(l).map(Route::CloneFromOnto);
+        }
+        if let Some(l) = s.strip_prefix("clone_from_source:") {
+            return special(l).map(Route::CloneFromSpecialSrc);
+        }
         [Route::New, Route::NewFromSlice, Route::Clone, Route::ConvRef, Route::ConvVal, Route::CloneOfConv, Route::ConvSource, Route::CloneFrom]
             .into_iter()
             .find(|r| r.name() == s)
-            .or_else(|| special_ctors().iter().position(|c| c.1 == s).map(Route::Special))
+            .or_else(|| special(s).map(Route::Special))
     }
+}
+
+fn leak(s: String) -> &'static str {
+    use std::sync::Mutex;
+    static POOL: Mutex<Vec<&'static str>> = Mutex::new(Vec::new());
+    let mut p = POOL.lock().unwrap();
+    if let Some(x) = p.iter().find(|x| **x == s) {
+        return x;
+    }
+    let l: &'static str = Box::leak(s.into_boxed_str());
+    p.push(l);
+    l
 }
 
 #[derive(Clone, Debug)]
@@ -94,6 +122,12 @@ unsafe fn ctor_bcrypt_setup(slot: *mut u8, key: &[u8]) -> bool {
     b.bc_expand_key(key);
     b.bc_expand_key(&salt);
     unsafe { core::ptr::write(slot as *mut blowfish_zb::Blowfish, b) };
+    true
+}
+
+unsafe fn ctor_bc_init_state(slot: *mut u8, _key: &[u8]) -> bool {
+    // the un-keyed state bcrypt starts from (public constants only)
+    unsafe { core::ptr::write(slot as *mut blowfish_zb::Blowfish, blowfish_zb::Blowfish::bc_init_state()) };
     true
 }
 
@@ -129,6 +163,7 @@ ctor_tf_tweak!(ctor_tfnc1024, threefish_nc_z::Threefish1024, 128);
 pub fn special_ctors() -> Vec<(&'static str, &'static str, SpecialCtor)> {
     vec![
         ("blowfish_zb::Blowfish", "bcrypt_setup", ctor_bcrypt_setup as SpecialCtor),
+        ("blowfish_zb::Blowfish", "bc_init_state", ctor_bc_init_state),
         ("rc2_z::Rc2", "new_with_eff_key_len", ctor_rc2_eff),
         ("threefish_z::Threefish256", "new_with_tweak", ctor_tf256),
         ("threefish_z::Threefish512", "new_with_tweak", ctor_tf512),
@@ -368,6 +403,17 @@ impl<'a> Engine<'a> {
                 ops.push(Op::CloneFrom { id: 1, task: 0, src: 2 });
                 source = Some(2);
             }
+            Route::CloneFromOnto(_) => {
+                // id 1 provides the slot (replaced below by the inherent constructor's state), id 2 the key
+                ops.push(Op::New { id: 1, task: 0, fam: f, role: target_role, key: vec![0x11; fam.key_size], fixed: false });
+                ops.push(Op::New { id: 2, task: 0, fam: f, role: target_role, key: c.key.clone(), fixed: false });
+                source = Some(2);
+            }
+            Route::CloneFromSpecialSrc(_) => {
+                ops.push(Op::New { id: 1, task: 0, fam: f, role: target_role, key: vec![0x33; fam.key_size], fixed: false });
+                ops.push(Op::New { id: 2, task: 0, fam: f, role: target_role, key: vec![0x11; fam.key_size], fixed: false });
+                source = Some(2);
+            }
             Route::Special(_) => {
                 // a World instance provides the slot; it is keyed with a fixed key of the family's nominal
                 // length (special constructors may accept lengths KeyInit rejects), dropped in place and
@@ -383,20 +429,33 @@ impl<'a> Engine<'a> {
                 Err(v) => return Err(format!("violation while building: {}", v.detail)),
             }
         }
-        if let Route::Special(i) = c.route {
-            let r = w.insts.get(&target).and_then(|x| x.reals.first()).cloned().ok_or("no realisation")?;
+        let replace: Option<(u32, usize, Vec<u8>)> = match c.route {
+            Route::Special(i) => Some((target, i, c.key.clone())),
+            Route::CloneFromOnto(i) => Some((1, i, c.key.iter().map(|b| b ^ 0xA7).collect())),
+            Route::CloneFromSpecialSrc(i) => Some((2, i, c.key.clone())),
+            _ => None,
+        };
+        if let Some((rid, i, rkey)) = replace {
+            let r = w.insts.get(&rid).and_then(|x| x.reals.first()).cloned().ok_or("no realisation")?;
             let tt = &reg.types[r.ty];
             let p = w.slots.ptr(r.slot);
             guard(|| unsafe { (tt.drop)(p) })?;
             unsafe { core::ptr::write_bytes(p, 0xDD, tt.size) };
             let ctor = special_ctors()[i].2;
-            if !guard(|| unsafe { ctor(p, &c.key) })? {
+            if !guard(|| unsafe { ctor(p, &rkey) })? {
                 // leave a valid value behind for World's bookkeeping
                 let _ = guard(|| unsafe { (tt.new_from_slice)(p, &vec![0x11; fam.key_size]) });
                 return Err("special constructor rejected key".into());
             }
-            if let Some(inst) = w.insts.get_mut(&target) {
+            if let Some(inst) = w.insts.get_mut(&rid) {
                 inst.key = Vec::new(); // World's fresh-reference oracle does not apply to this instance
+            }
+        }
+        if matches!(c.route, Route::CloneFromOnto(_) | Route::CloneFromSpecialSrc(_)) {
+            match w.apply(&Op::CloneFrom { id: 1, task: 0, src: 2 }) {
+                Ok(so) if so.applied => {}
+                Ok(_) => return Err("route step not applicable: clone_from".into()),
+                Err(v) => return Err(format!("violation while building: {}", v.detail)),
             }
         }
         if c.drop_source_first {
@@ -404,7 +463,7 @@ impl<'a> Engine<'a> {
                 let _ = w.apply(&Op::Drop { id: s, task: 0 });
             }
         }
-        if c.used && !matches!(c.route, Route::Special(_)) {
+        if c.used && !matches!(c.route, Route::Special(_) | Route::CloneFromSpecialSrc(_)) {
             let bs = fam.block;
             for (dir, shape, n) in [(Dir::Enc, Shape::Blocks, 3u32), (Dir::Dec, Shape::Block, 1), (Dir::Enc, Shape::BlockB2b, 1)] {
                 if !target_role.can(dir) {
@@ -449,7 +508,7 @@ fn case_from_json(reg: &Registry, v: &Value) -> Option<Case> {
     Some(Case {
         ty: reg.type_by_name(v.get("type")?.as_str()?)?,
         mask: v.get("mask_aes")?.as_bool()?,
-        route: Route::parse(v.get("route")?.as_str()?)?,
+        route: Route::parse(v.get("route")?.as_str()?, v.get("type")?.as_str()?)?,
         key: unhex(v.get("key")?.as_str()?)?,
         used: v.get("used_before_drop")?.as_bool()?,
         relocate: v.get("relocated_before_drop")?.as_bool()?,
@@ -470,7 +529,10 @@ struct Outcome {
 
 fn judge(e: &mut Engine, c: &Case) -> Result<Outcome, String> {
     let (residue, dty) = e.run_case(c)?;
-    let special = if let Route::Special(i) = c.route { i } else { usize::MAX };
+    let special = match c.route {
+        Route::Special(i) | Route::CloneFromSpecialSrc(i) => i,
+        _ => usize::MAX,
+    };
     let cal = e.calibrate(dty, c.mask, c.key.len(), c.used, special);
     let live_nonzero: Vec<usize> = cal.live.iter().copied().filter(|&i| residue[i] != 0).collect();
     let kdep_nonzero: Vec<usize> = cal.k.iter().copied().filter(|&i| residue[i] != 0).collect();
@@ -497,6 +559,9 @@ fn routes_for(reg: &Registry, t: &TypeInfo) -> Vec<Route> {
     for (i, (tn, _, _)) in special_ctors().iter().enumerate() {
         if *tn == t.name {
             r.push(Route::Special(i));
+            if t.clone_from.is_some() {
+                r.extend([Route::CloneFromOnto(i), Route::CloneFromSpecialSrc(i)]);
+            }
         }
     }
     r
